@@ -612,11 +612,127 @@ func c08LaterExecutions(b *core.B) {
 	b.NonTrivialStr("stored blocks over several executions")
 }
 
+// c08OtherData: what a loop visits is what its iterable is worth in *this* execution. One
+// parsed template (and, with the cache on, one text) is executed with four sets of data in
+// turn; the iterables are written with literals that mention variables at every depth.
+func c08OtherData(b *core.B) {
+	type ds struct {
+		a, bb string
+		n     int
+		xs    []string
+	}
+	data := []ds{{"p", "q", 2, []string{"x1"}}, {"r", "s", 0, nil}, {"t", "u", 3, []string{"y1", "y2", "y3"}}, {"p", "q", 1, []string{}}}
+	join := func(xs ...string) string {
+		o := ""
+		for i, x := range xs {
+			o += fmt.Sprintf("%d=%s;", i, x)
+		}
+		return o
+	}
+	nums := func(from, to int) []string {
+		var o []string
+		for i := from; i <= to; i++ {
+			o = append(o, fmt.Sprint(i))
+		}
+		return o
+	}
+	forms := []struct {
+		name, iter, elem string
+		want             func(d ds) string
+	}{
+		{"array-of-variables", `[a, b]`, `e`, func(d ds) string { return join(d.a, d.bb) }},
+		{"array-of-hashes-of-variables", `[{"n": a}, {"n": b}]`, `e["n"]`, func(d ds) string { return join(d.a, d.bb) }},
+		{"array-of-arrays-of-variables", `[[a], ["c", b]]`, `e[len(e) - 1]`, func(d ds) string { return join(d.a, d.bb) }},
+		{"array-of-constants-and-a-sum", `["c", a + "!"]`, `e`, func(d ds) string { return join("c", d.a+"!") }},
+		{"array-of-calls", `[up(a), "c"]`, `e`, func(d ds) string { return join(strings.ToUpper(d.a), "c") }},
+		{"array-of-constants", `["c", "d"]`, `e`, func(d ds) string { return join("c", "d") }},
+		{"array-of-hashes-of-constants", `[{"n": "c"}, {"n": 1}]`, `e["n"]`, func(d ds) string { return join("c", "1") }},
+		{"hash-of-a-variable", `{"k": a}`, `e`, func(d ds) string { return "k=" + d.a + ";" }},
+		{"variable", `xs`, `e`, func(d ds) string { return join(d.xs...) }},
+		{"variable-plus-variable", `xs + b`, `e`, func(d ds) string { return join(append(append([]string{}, d.xs...), d.bb)...) }},
+		{"until-variable", `until(n)`, `e`, func(d ds) string { return join(nums(0, d.n-1)...) }},
+		{"range-to-variable", `range(1, n)`, `e`, func(d ds) string { return join(nums(1, d.n)...) }},
+		{"member-of-a-variable", `h.Tags`, `e`, func(d ds) string { return join(d.a+"0", d.a+"1") }},
+		{"index-by-a-variable", `grid[n]`, `e`, func(d ds) string { return join(fmt.Sprint("g", d.n)) }},
+	}
+	mkCtx := func(d ds) *plush.Context {
+		ctx := c08Ctx()
+		ctx.Set("a", d.a)
+		ctx.Set("b", d.bb)
+		ctx.Set("n", d.n)
+		ctx.Set("xs", d.xs)
+		hh := newT(d.a)
+		hh.Tags = []string{d.a + "0", d.a + "1"}
+		ctx.Set("h", hh)
+		ctx.Set("grid", [][]string{{"g0"}, {"g1"}, {"g2"}, {"g3"}})
+		return ctx
+	}
+	for _, f := range forms {
+		for _, where := range []string{"top", "in-if", "in-fn", "in-loop"} {
+			loop := "<%= for (i, e) in " + f.iter + " { %><%= i %>=<%= " + f.elem + " %>;<% } %>"
+			src := loop
+			switch where {
+			case "in-if":
+				src = "<%= if (true) { %>" + loop + "<% } %>"
+			case "in-fn":
+				src = "<% let f = fn() { %>" + loop + "<% } %><%= f() %>"
+			case "in-loop":
+				src = "<%= for (z) in [1] { %>" + loop + "<% } %>"
+			}
+			if !b.Begin(src) {
+				continue
+			}
+			for _, mode := range []string{"one-template", "cache"} {
+				var t *plush.Template
+				if mode == "one-template" {
+					var err error
+					if t, err = plush.NewTemplate(src); err != nil {
+						b.Violate("loop-rejected|other-data|"+f.name, err.Error())
+						break
+					}
+				}
+				bad := false
+				for k, d := range data {
+					var o R
+					ctx := mkCtx(d)
+					o.Pan = core.Guard(func() {
+						if t != nil {
+							o.Out, o.Err = t.Exec(ctx)
+							return
+						}
+						plush.CacheEnabled = true
+						defer func() { plush.CacheEnabled = false }()
+						o.Out, o.Err = plush.Render(src, ctx)
+					})
+					b.Count("other-data:" + mode)
+					if o.Pan != nil {
+						b.Violate(o.Pan.Sig(), o.Pan.Value)
+						bad = true
+						break
+					}
+					want := f.want(d)
+					if o.Err != nil || o.Out != want {
+						b.ViolateIn("wrong-loop-output|later-execution-with-other-data|"+f.name, src, fmt.Sprintf("%s, execution %d (a=%q b=%q n=%d xs=%q): want %q, got %s", mode, k+1, d.a, d.bb, d.n, d.xs, want, o))
+						bad = true
+						break
+					}
+				}
+				if bad {
+					break
+				}
+			}
+			b.Count("other-data-form:" + f.name + "/" + where)
+			b.NonTrivialStr(src)
+		}
+	}
+}
+
 func c08Run(b *core.B) {
 	if b.Batch == 0 {
 		c08StoredBlocks(b)
 		c08LaterExecutions(b)
 		c08NilElements(b)
+		c08OtherData(b)
 	}
 	r := b.Rng(1)
 	n := 120000
